@@ -18,14 +18,18 @@ RULE = (
     'level (second document). components: two generator models merged into one document vs each alone. Link results are matched by '
     'body, dof results by joint. Non-trivial: rotation angle > 0.1 rad; permutation not the identity; both components have a '
     'non-free joint. Distinct: hash of the case.')
-ASSUMPTIONS = ['trajectories that diverge (|qd| > 1e4 or non-finite) are counted diverged_not_compared',
+ASSUMPTIONS = ['spring and positional are asserted on models whose stacks they implement (orthogonal, one kind or slides then one hinge); on other stacks their failures are matched against known finding C05/unsupported-stack (same upstream limitation as C04/rest-unsupported-stack); generalized is asserted on all',
+               'half of the generated models use the supported-stack profile so that spring/positional are exercised on claimed ground',
+               'trajectories that diverge (|qd| > 1e4 or non-finite) are counted diverged_not_compared',
                'wide limits and no contacts, so that the iterative constraint solver of the generalized pipeline has no active row',
                'generalized pipeline with matrix_inv_iterations = 0 (exact inverse)']
 TOLERANCES = {'rigid': '1e-8*(1+scale)', 'order': 1e-9, 'components': 1e-9}
 
 
-def base_profile(**kw):
+def base_profile(supported=False, **kw):
   d = dict(limits='wide', actuators='any', max_bodies=5, gravity='any')
+  if supported:
+    d.update(axes='orthogonal', stacks='supported')
   d.update(kw)
   return modelgen.profile(**d)
 
@@ -57,6 +61,11 @@ def asymmetric(tag, pname, outs):
                     labels={'check': tag, 'pipeline': pname, 'field': 'finiteness'})
 
 
+def stack_class(*specs):
+  ok = all(modelgen.stack_supported(b) for sp in specs for b in sp['bodies'])
+  return 'supported' if ok else 'unsupported'
+
+
 def rot_np(v, q):
   return modelgen.quat_to_mat(q) @ np.asarray(v, float)
 
@@ -66,7 +75,7 @@ def rot_np(v, q):
 
 @st.composite
 def rigid_cases(draw):
-  c = draw(modelgen.model_and_states(base_profile(root='free'), k=3, q_range=(-1.0, 1.0),
+  c = draw(modelgen.model_and_states(base_profile(draw(st.booleans()), root='free'), k=3, q_range=(-1.0, 1.0),
                                      cls_list=['stack', 'slide_on_rotated', 'actuated', 'anchor', 'plain']))
   c['g'] = draw(modelgen.unit_quat(identity_p=0.0))
   if c['g'] == [1.0, 0.0, 0.0, 0.0]:
@@ -103,6 +112,9 @@ def check_rigid(c, ctx=None):
   grav1 = rot_np(grav0, g)
   worst = {}
   labels = []
+  sclass = stack_class(spec)
+  # generalized first: a failure of spring/positional on a stack they do not implement is the recorded known finding and
+  # must not hide the generalized comparison
   for pname in phys.PIPELINES:
     f = run_fn(m, pname, sys, c['nsteps'])
     o0 = {k: np.asarray(v) for k, v in f(jp.array(grav0), jp.array(q0), jp.array(qd0), jp.array(ctrl)).items()}
@@ -120,7 +132,8 @@ def check_rigid(c, ctx=None):
       worst[f'{pname}_{name}'] = max(worst.get(f'{pname}_{name}', 0.0), e / scale)
       if not e <= tol:
         raise Violation('rigid', f'{pname} after {c["nsteps"]} steps: {name} of the transformed scene differs from the transformed result by {e:.3e} '
-                        f'(scale {scale:.2e}); rotation {c["g"]}, translation {c["t"]}', labels={'check': 'rigid', 'pipeline': pname, 'field': name})
+                        f'(scale {scale:.2e}); rotation {c["g"]}, translation {c["t"]}',
+                        labels={'check': 'rigid', 'pipeline': pname, 'field': name, 'stack_class': sclass if pname != 'generalized' else 'any'})
     rt = lambda p: (modelgen.quat_to_mat(g) @ p.T).T
     cmp('init link position', o1['x0p'], rt(o0['x0p']) + t)
     cmp('link position', o1['xp'], rt(o0['xp']) + t)
@@ -129,7 +142,8 @@ def check_rigid(c, ctx=None):
     exp_rot = np.array([modelgen.quat_mul(g, r) for r in o0['xr']])
     e = float(phys.quat_diff(o1['xr'], exp_rot).max())
     if not e <= tol:
-      raise Violation('rigid', f'{pname}: link rotation of the transformed scene differs by {e:.3e}', labels={'check': 'rigid', 'pipeline': pname, 'field': 'rotation'})
+      raise Violation('rigid', f'{pname}: link rotation of the transformed scene differs by {e:.3e}',
+                      labels={'check': 'rigid', 'pipeline': pname, 'field': 'rotation', 'stack_class': sclass if pname != 'generalized' else 'any'})
     cmp('non-root q', o1['q'][~rootmask_q], o0['q'][~rootmask_q])
     cmp('non-root qd', o1['qd'][~rootmask_qd], o0['qd'][~rootmask_qd])
     for bi, b in enumerate(spec['bodies']):
@@ -142,8 +156,8 @@ def check_rigid(c, ctx=None):
     for n_, v in worst.items():
       ctx.residual('rigid_' + n_.split('_')[0], v)
   ang = 2 * np.arccos(min(1.0, abs(g[0])))
-  return dict(fp=fingerprint(c), nontrivial=bool(ang > 0.1), evals=3, labels=['rigid'] + labels + modelgen.classes(spec),
-              sample={'family': 'rigid', 'model': phys.model_summary(spec), 'rotation': c['g'], 'translation': c['t'], 'steps': c['nsteps'],
+  return dict(fp=fingerprint(c), nontrivial=bool(ang > 0.1), evals=3, labels=['rigid', 'stacks_' + sclass] + labels + modelgen.classes(spec),
+              sample={'family': 'rigid', 'stack_class': sclass, 'model': phys.model_summary(spec), 'rotation': c['g'], 'translation': c['t'], 'steps': c['nsteps'],
                       'worst_relative': {k: v for k, v in worst.items() if 'position' in k}})
 
 
@@ -179,7 +193,7 @@ def permuted(spec, keys):
 
 @st.composite
 def order_cases(draw):
-  c = draw(modelgen.model_and_states(base_profile(min_bodies=3, max_bodies=6), k=2, q_range=(-1.0, 1.0)))
+  c = draw(modelgen.model_and_states(base_profile(draw(st.booleans()), min_bodies=3, max_bodies=6), k=2, q_range=(-1.0, 1.0)))
   nb = len(c['spec']['bodies'])
   c['keys'] = draw(st.permutations(list(range(nb))))
   c['nsteps'] = draw(st.sampled_from([1, 2, 3]))
@@ -245,7 +259,8 @@ def check_order(c, ctx=None):
       if ctx is not None:
         ctx.count('diverged_not_compared')
       continue
-    worst[pname] = compare_mapped('order', pname, spec, s1, s2, new_of, o1, o2, 1e-9, {'check': 'order', 'pipeline': pname})
+    worst[pname] = compare_mapped('order', pname, spec, s1, s2, new_of, o1, o2, 1e-9,
+                                  {'check': 'order', 'pipeline': pname, 'stack_class': stack_class(spec) if pname != 'generalized' else 'any'})
   if ctx is not None:
     for n_, v in worst.items():
       ctx.residual('order_' + n_, v)
@@ -259,7 +274,7 @@ def check_order(c, ctx=None):
 
 @st.composite
 def component_cases(draw):
-  pa = base_profile(max_bodies=3)
+  pa = base_profile(draw(st.booleans()), max_bodies=3)
   a = draw(modelgen.model_and_states(pa, k=2, q_range=(-1.0, 1.0)))
   b = draw(modelgen.model_and_states(pa, k=2, q_range=(-1.0, 1.0)))
   b['spec']['gravity'] = a['spec']['gravity']
@@ -306,9 +321,9 @@ def check_components(c, ctx=None):
         ctx.count('diverged_not_compared')
       continue
     wa = compare_mapped('components', pname, sa, sta, stab, {i: i for i in range(len(sa['bodies']))}, oa, oab, 1e-9,
-                        {'check': 'components', 'pipeline': pname, 'part': 'first'})
+                        {'check': 'components', 'pipeline': pname, 'part': 'first', 'stack_class': stack_class(sa, sb) if pname != 'generalized' else 'any'})
     wb = compare_mapped('components', pname, sb, stb, stab, {i: i + off for i in range(len(sb['bodies']))}, ob, oab, 1e-9,
-                        {'check': 'components', 'pipeline': pname, 'part': 'second'})
+                        {'check': 'components', 'pipeline': pname, 'part': 'second', 'stack_class': stack_class(sa, sb) if pname != 'generalized' else 'any'})
     worst[pname] = max(wa, wb)
   if ctx is not None:
     for n_, v in worst.items():
